@@ -1689,6 +1689,13 @@ fn main() {
                 c11::<Lut>(c, n);
             }
             for_static!(c, c11, 0..=8usize);
+            // the parser takes arbitrary strings: every one is a valid argument (Ok or Err, never a panic, in both profiles)
+            for n in 0..=4 {
+                c09_parse::<Lut>(c, n);
+            }
+            for n in 0..=3usize {
+                with_static!(n, c09_parse(&mut *c, n));
+            }
         }
         #[cfg(feature = "mip")]
         "C18" => mip::c18(c),
